@@ -5,7 +5,9 @@ a real CryptContext on ONE stored password-field value, next to the reference mo
 
   state   = the stored string (or None) + the model triple (kind, embedded original, strong?) (+ number of
             missing-hash verifications made so far, capped at 2: the first one builds the memoised dummy hash)
-  events  = disable(stored) and disable() under each scripted random answer, enable(stored), is_enabled(stored),
+  events  = reload of the policy at run time (load(dict) / load(other context) / update(): the two real schemes swap
+            places, so the default scheme may change; at most once per history),
+            disable(stored) and disable() under each scripted random answer, enable(stored), is_enabled(stored),
             verify(p, stored) for p in {"", "x", the stored text itself, the context's marker},
             verify_and_update("x", stored)
   roots   = context (disabled hasher at every list position among two real schemes, custom markers, a scheme whose
@@ -209,6 +211,8 @@ class World:
         self.stored = init
         self.model = classify(spec, init)
         self.ndummy = 0
+        self.ndummy_pre = None  # missing-hash verifications made before the policy reload (None: no reload yet)
+        self.reloads = 0
 
 
 def _exc(e):
@@ -298,6 +302,36 @@ def step(w, ev):
         sc = sc.replace("_marker_led", "")
     osc = sc.replace("_marker_led", "")  # observations: whether the original is marker-led does not define the class
     name = ev[0]
+    if name == "reload":
+        # the application re-reads its policy at run time: same schemes, the two real ones swapped (so the default
+        # scheme may change); anything the context memoised from the old policy must not survive
+        new = swapped_schemes(spec)
+        kw = {"schemes": new}
+        if "sha256_crypt" in new:
+            kw["sha256_crypt__rounds"] = 1000
+        if spec.get("marker") is not None:
+            kw["unix_disabled__marker"] = spec["marker"]
+        how = ev[1]
+        if how == "load":
+            r = _call(lambda: ctx.load(kw))
+        elif how == "load_ctx":
+            from passlib.context import CryptContext
+
+            r = _call(lambda: ctx.load(CryptContext(**kw)))
+        else:
+            r = _call(lambda: ctx.update(schemes=new))
+        if r[0] == "exc":
+            out.append((f"C18|reload|{how}:raises:{_exc(r[1])}", f"ctx.{how}(schemes={new}) raised {r[1]!r}"))
+            return out
+        w.spec = dict(spec, schemes=new)
+        w.model = classify(w.spec, s)
+        # whether a dummy hash was memoised BEFORE the reload is part of the state: verify(None), reload and
+        # reload, verify(None) have different futures if the memo wrongly survives the reload
+        w.ndummy_pre, w.ndummy = w.ndummy, 0
+        w.reloads += 1
+        if w.model[0] == "disabled" and s is not None:
+            out.extend(check_disabled_observations(w, f"after {how}(schemes={new})"))
+        return out
     if name in ("disable", "disable_none"):
         arg = s if name == "disable" else None
         src = model if name == "disable" else ("none", None, True)
@@ -391,9 +425,21 @@ def step(w, ev):
     raise core.HarnessError(f"unknown event {ev!r}")
 
 
+def swapped_schemes(spec):
+    sch = list(spec["schemes"])
+    if "sha256_crypt" in sch and "md5_crypt" in sch:
+        i, j = sch.index("sha256_crypt"), sch.index("md5_crypt")
+        sch[i], sch[j] = sch[j], sch[i]
+        return sch
+    return None
+
+
 def events_for(w, rng_answers):
     evs = []
     kind = w.model[0]
+    if swapped_schemes(w.spec) and w.reloads < 1:
+        for how in ("load", "load_ctx", "update"):
+            evs.append(["reload", how])
     if kind != "none":
         for a in rng_answers:
             evs.append(["disable", a])
@@ -411,7 +457,7 @@ def events_for(w, rng_answers):
 
 
 def canon(w):
-    return (w.stored, w.model, w.ndummy)
+    return (w.stored, w.model, w.ndummy, w.ndummy_pre, tuple(w.spec["schemes"]))
 
 
 def invariant(w):
